@@ -275,11 +275,111 @@ def r4_serde(chk, F):
     chk.ob(rule, "<Duration as Deserialize>::deserialize", "Duration::from_str(string)", ok, "E5 delegation")
 
 
+def r5_text_roundtrip(chk, F, tier):
+    """Duration::from_str interpreted on the texts Display writes (shape decided by R3: optional '-', then '<value> <unit>'
+    for the non-zero components in order, single spaces; template-string domain of C10).  On every path the reader must reach
+    compose_f64 exactly once with component k = the value of the digit run written for unit k (0 for the others), and return
+    that duration, negated iff the text starts with '-' - in particular the [+-]HH:MM offset reader, tried first for signed
+    texts, must not accept a duration's text."""
+    from .c10 import Reader
+    from ..tstr import render as trender
+    from ..sym import St as _St, Ref as _Ref, Flt as _Flt
+    from ..lin import implies as _implies
+    rule = "C11.R5"
+    R = Reader(F)
+    eng, D = R.eng, R.D
+    from_str = F.find1(self_ty="Duration", name="from_str", trait_ref="FromStr")
+    cf = F.find1(self_ty="Duration", name="compose_f64", trait="")
+    neg = F.find1(self_ty="Duration", name="neg", trait_ref="Neg")
+    units = DISPLAY_UNITS
+    shapes = []
+    lens = [1, 2, 3]
+    for k in range(7):
+        for ln in (lens + ([5] if k == 0 else [])):
+            shapes.append([(k, ln)])
+    pairs = [(0, 1), (1, 2), (2, 3), (3, 4), (4, 5), (5, 6), (0, 6), (1, 5)]
+    for a, b in pairs:
+        for la, lb in ((1, 1), (2, 3)) if tier != "thorough" else ((1, 1), (1, 2), (2, 1), (2, 2), (2, 3), (3, 3)):
+            shapes.append([(a, la), (b, lb)])
+    shapes.append([(k, 1) for k in range(7)])
+    shapes.append([(k, 2) for k in range(7)])
+    n = 0
+    for shape in shapes:
+        for sign in ("", "-"):
+            eng.reset()
+            R.T.n = 0
+            st = _St()
+            els = R.T.lit(sign)
+            vals = {}
+            for i, (k, ln) in enumerate(shape):
+                if i:
+                    els += R.T.lit(" ")
+                d, val = R.T.digits("v%d" % k, ln)
+                els += d
+                vals[k] = val
+                # Display prints no leading zero and only non-zero components
+                eng.add_cons(st, [(-(d[0][1]) + 49, "<=")])
+                els += R.T.lit(" " + units[k])
+            tmpl = R.T.mk(els)
+            R.install()
+            eng.hooks_by_id[cf["id"]] = rec_hook(D, "compose_f64")
+            eng.hooks_by_id[neg["id"]] = rec_hook(D, "neg")
+            finals = eng.run(from_str, args=[_Ref(val=tmpl)], st=st)
+            R.uninstall()
+            n += 1
+            problems = []
+            nok = 0
+            for s2 in finals:
+                if s2.end != "return":
+                    problems.append("path ends in %s" % s2.end)
+                    continue
+                calls = recs(s2, "compose_f64")
+                r = s2.ret
+                rn = eng.types[r.tid]["variants"][r.vi]["name"] if isinstance(r, Enum) else None
+                if rn != "Ok":
+                    problems.append("the text is rejected (%s)" % rn)
+                    continue
+                if len(calls) != 1:
+                    problems.append("accepted without composing the parsed components (%d compose_f64 calls): read as a time-zone offset" % len(calls))
+                    continue
+                a, res = calls[0]
+                sg = a[0]
+                if not (isinstance(sg, Int) and sg.lin.is_const() and sg.lin.k == 1):
+                    problems.append("compose sign argument is %r" % (sg,))
+                for k in range(7):
+                    got = a[k + 1]
+                    if k in vals:
+                        lin = eng.flt_int(s2, got) if isinstance(got, _Flt) and got.t[0] == "i2f" else None
+                        if lin is None or not (lin.key() == vals[k].key() or _implies(s2.cons, lin - vals[k], "==", s2.bnd)):
+                            problems.append("component %d (%s) is %r, expected the value written" % (k, units[k], got))
+                    else:
+                        if not (isinstance(got, _Flt) and got.t == ("c", 0.0)):
+                            problems.append("component %d (%s) is %r, expected 0" % (k, units[k], got))
+                negs = recs(s2, "neg")
+                final = r.fs[0]
+
+                def same(x, y):
+                    tx, ty = D.total(x), D.total(y)
+                    return x is y or (tx is not None and ty is not None and tx.key() == ty.key())
+                if sign == "-":
+                    if not (len(negs) == 1 and same(negs[0][0][0], res) and same(final, negs[0][1])):
+                        problems.append("result is not the negation of the composed duration")
+                else:
+                    if negs or not same(final, res):
+                        problems.append("result is not the composed duration")
+                nok += 1
+            ok = not problems and nok >= 1
+            chk.ob(rule, "<Duration as FromStr>::from_str", "from_str(%r)->compose(components-in-role-order)%s" % (trender(tmpl.els) if hasattr(tmpl, "els") else tmpl.s, ",negated" if sign else ""),
+                   ok, "reader interpreted on the Display template (%d path(s))" % len(finals), detail=None if ok else {"problems": sorted(set(problems))[:4]}, sample=(n == 1))
+    chk.floor(rule, "Display templates run through the reader", n, 70)
+
+
 def run(chk, F, tier):
     r1_decompose(chk, F)
     r2_chain(chk, F)
     r3_display(chk, F)
     r4_serde(chk, F)
+    r5_text_roundtrip(chk, F, tier)
     eng, D = ctx(F)
     chk.extra["engine_stats"] = dict(eng.stats)
     chk.assumptions.append("fractional values / [+-]HH:MM[:SS] offsets 'with the value they denote' go through f64: C18's clauses, not decided")
